@@ -139,9 +139,20 @@ def gen_cascade(rnd, n=None, mapped=True):
     if not mapped:
         return spec
     # per-Einsum mapping
+    done = set()
     for i, e in enumerate(spec.exprs):
         if sum(1 for e2 in spec.exprs if e2.out.name == e.out.name) > 1:
-            # mapping sections are keyed by output name: both writers would share the entry
+            # mapping sections are keyed by output name: both writers share the entry, so
+            # only a split of one of the output's own ranks, under the default loop order
+            if e.out.name not in done and spec.decl[e.out.name] and rnd.random() < 0.6:
+                done.add(e.out.name)
+                r = rnd.choice(spec.decl[e.out.name])
+                p = dict(spec.partitioning or {})
+                p[e.out.name] = {r: [rnd.choice(["uniform_shape(%d)", "nway_shape(%d)"])
+                                     % rnd.randint(2, 4)]}
+                spec.partitioning = p
+                spec.tags.append("twice-written-output-partitioned")
+            done.add(e.out.name)
             continue
         info = _einsum_info(spec, e)
         single = len(e.terms) == 1
